@@ -261,17 +261,7 @@ void ldb_batch_del(ldb_batch_t *batch, const ldb_slice_t *key) {
   if (key != NULL) { g_kdata = key->data; g_ksize = key->size; }
 }
 void ldb_batch_append(ldb_batch_t *dst, const ldb_batch_t *src) { rec(F_B_APPEND); g_batch = dst; g_batch2 = src; }
-/* ldb_batch_iterate walks the records of the batch in order and hands each one to the handler: here a batch of two
- * records, a value record (k1, v1) and a deletion (k2), in either order; a corrupted batch stops with a status */
-static ldb_slice_t g_k1, g_v1, g_k2; static int g_put_first, g_n_records;
-static uint64_t g_h_number_seen;
-int ldb_batch_iterate(const ldb_batch_t *batch, ldb_handler_t *handler) {
-  rec(F_B_ITERATE); g_batch = batch;
-  if (g_n_records >= 1) { if (g_put_first) handler->put(handler, &g_k1, &g_v1); else handler->del(handler, &g_k2); }
-  if (g_n_records >= 2) { if (g_put_first) handler->del(handler, &g_k2); else handler->put(handler, &g_k1, &g_v1); }
-  g_abort_expected = g_rc != LDB_OK;
-  return g_rc;
-}
+/* (ldb_batch_iterate: after the inclusion of c.c - its model looks into the adapter's iterate_opts_t) */
 
 /* ------------------------------------------------- native: bloom, buffer, cache, env */
 static const ldb_bloom_t *g_bi_bloom; static int g_bi_bits;
@@ -312,6 +302,28 @@ int ldb_test_directory(char *result, size_t size) {
 #undef memcpy
 #undef sprintf
 #undef abort
+
+/* ----------------------------------------------- native: ldb_batch_iterate */
+/* ldb_batch_iterate walks the records of the batch in order and hands each one to the handler (bat.iterate): here a batch of
+ * zero, one or two records - a value record (k1, v1) and a deletion (k2), in either order; a corrupted batch stops with a
+ * status.  After every delivery the model checks that neither the handler object nor the adapter's private options were
+ * changed by the callback adapter: deliveries are independent of each other, a longer batch is a repetition. */
+static ldb_slice_t g_k1, g_v1, g_k2; static int g_put_first, g_n_records, g_h_frame_ok, g_h_shape_ok;
+static int h_same(const ldb_handler_t *h, const ldb_handler_t *h0, const iterate_opts_t *o0) {
+  const iterate_opts_t *o = h->state;
+  return h->state == h0->state && h->put == h0->put && h->del == h0->del && o->state == o0->state && o->put == o0->put && o->del == o0->del;
+}
+int ldb_batch_iterate(const ldb_batch_t *batch, ldb_handler_t *handler) {
+  ldb_handler_t h0 = *handler; iterate_opts_t o0;
+  rec(F_B_ITERATE); g_batch = batch;
+  g_h_shape_ok = handler->state != NULL && handler->put != NULL && handler->del != NULL;
+  o0 = *(iterate_opts_t *)handler->state;
+  g_h_frame_ok = 1;
+  if (g_n_records >= 1) { if (g_put_first) handler->put(handler, &g_k1, &g_v1); else handler->del(handler, &g_k2); g_h_frame_ok = g_h_frame_ok && h_same(handler, &h0, &o0); }
+  if (g_n_records >= 2) { if (g_put_first) handler->del(handler, &g_k2); else handler->put(handler, &g_k1, &g_v1); g_h_frame_ok = g_h_frame_ok && h_same(handler, &h0, &o0); }
+  g_abort_expected = g_rc != LDB_OK;
+  return g_rc;
+}
 
 /* ---------------------------------------------------------------------- reset */
 static void reset(void) {
@@ -683,6 +695,7 @@ void h_batch_iterate(void) {
           "writebatch_iterate: put(state, key, klen, value, vlen) gets the caller's state and exactly the record's key and value");
     CHECK(!want_del || (g_cbd_state == state && g_cbd_k == (const char *)k2 && g_cbd_klen == g_k2.size), "writebatch_iterate: deleted(state, key, klen) gets the caller's state and exactly the record's key");
     CHECK(g_n_records < 2 || ((g_cbp_seq < g_cbd_seq) == (g_put_first != 0)), "writebatch_iterate: the callbacks run in the order of the records");
+    CHECK(g_h_shape_ok && g_h_frame_ok, "writebatch_iterate: the handler is complete (state, put, del) and no delivery changes the handler or the adapter's options - every further record is treated like these");
   }
   CHECK(L.mallocs == 0 && L.frees == 0, "writebatch_iterate: the shim allocates / frees nothing");
   CANARY();
